@@ -2726,7 +2726,7 @@ class UserMemoryBitWrite(APCI):
         if not 0 <= self.address <= 0xFFFF:
             raise ConversionError("Address out of range.")
         number = len(self.and_data)
-        if not 0 <= number <= 0xFF:
+        if not 1 <= number <= 0xFF:
             raise ConversionError("Number out of range.")
         if len(self.xor_data) != number:
             raise ConversionError("and_data and xor_data must have the same length.")
@@ -3562,7 +3562,7 @@ class MemoryBitWrite(APCI):
         if not 0 <= self.memory_address <= 0xFFFF:
             raise ConversionError("Memory address out of range.")
         number = len(self.and_data)
-        if not 0 <= number <= 0xFF:
+        if not 1 <= number <= 0xFF:
             raise ConversionError("Number out of range.")
         if len(self.xor_data) != number:
             raise ConversionError("and_data and xor_data must have the same length.")
